@@ -326,7 +326,11 @@ enum X {
 impl World {
     fn new(stake: Option<StakeCfg>) -> World {
         let mut d = Direct::new();
-        let addrs: Vec<Addr> = (0..N_ADDR).map(|i| d.api.addr_make(&format!("member{i}"))).collect();
+        let mut addrs: Vec<Addr> = (0..N_ADDR).map(|i| d.api.addr_make(&format!("member{i}"))).collect();
+        // addresses come in different lengths (accounts, contracts): pool address 3 (one of the four that bond
+        // in cw4-stake cases) is the 40-byte continuation of address 0 - in key order its direct successor, with
+        // address 0 as a strict prefix
+        addrs[3] = vcore::direct::extended_addr(&d.api, &addrs[0]);
         // the chain-level (wasm module) admin of the group contract is a pool address; the role gives no
         // rights inside the contract
         d.chain_admin = Some(addrs[2].clone());
@@ -381,12 +385,13 @@ impl World {
         Ok(r.weight)
     }
 
-    /// ListMembers paged to exhaustion (page size 4)
+    /// ListMembers paged to exhaustion (page size 4, 1, 2 or 3 by the block height)
     fn list(&self) -> Result<Vec<(String, u64)>, String> {
         let mut out: Vec<(String, u64)> = vec![];
         let mut cursor: Option<String> = None;
+        let size = [4u32, 1, 2, 3][(self.d.height % 4) as usize];
         loop {
-            let (start_after, limit) = (cursor.clone(), Some(4u32));
+            let (start_after, limit) = (cursor.clone(), Some(size));
             let page: MemberListResponse = if self.is_group() {
                 self.d.query(|deps, env| cw4_group::contract::query(deps, env, cw4_group::msg::QueryMsg::ListMembers { start_after, limit }))?
             } else {
@@ -444,7 +449,30 @@ impl World {
         })
     }
 
+    /// One call as the chain runs it. A notification the contract asks to hear back about when it fails
+    /// (`reply_on` Error / Always - the pinned tree sends none) is, on every other block, one the listening
+    /// contract refuses: the chain then hands the failure to the contract's `reply` entry point and the call
+    /// goes on; a failing `reply` fails the call as a whole.
     fn exec(&mut self, sender: &Addr, funds: &[Coin], x: X) -> Result<Response, String> {
+        let snapshot = self.d.store.clone();
+        let resp = self.exec_inner(sender, funds, x)?;
+        let stake = !self.is_group();
+        if self.d.height % 2 == 0 {
+            for sm in &resp.messages {
+                if matches!(sm.reply_on, cosmwasm_std::ReplyOn::Error | cosmwasm_std::ReplyOn::Always) {
+                    #[allow(deprecated)]
+                    let reply = cosmwasm_std::Reply { id: sm.id, payload: sm.payload.clone(), gas_used: 0, result: cosmwasm_std::SubMsgResult::Err("the listening contract refused the notification".into()) };
+                    if let Err(e) = call_reply(&mut self.d, stake, reply) {
+                        self.d.store = snapshot;
+                        return Err(e);
+                    }
+                }
+            }
+        }
+        Ok(resp)
+    }
+
+    fn exec_inner(&mut self, sender: &Addr, funds: &[Coin], x: X) -> Result<Response, String> {
         let info = Direct::info(sender, funds);
         if self.is_group() {
             use cw4_group::msg::ExecuteMsg as E;
@@ -475,6 +503,23 @@ impl World {
             };
             self.d.tx(|deps, env| cw4_stake::contract::execute(deps, env, info, msg))
         }
+    }
+}
+
+/// the contract's `reply` entry point, if it has one (the pinned tree has none: the stand-in answers then)
+fn call_reply(d: &mut Direct, stake: bool, msg: cosmwasm_std::Reply) -> Result<Response, String> {
+    #[allow(dead_code)]
+    fn reply(_deps: cosmwasm_std::DepsMut, _env: cosmwasm_std::Env, _msg: cosmwasm_std::Reply) -> Result<Response, String> {
+        Err("the contract has no reply entry point".into())
+    }
+    if stake {
+        #[allow(unused_imports)]
+        use cw4_stake::contract::*;
+        d.tx(|deps, env| reply(deps, env, msg))
+    } else {
+        #[allow(unused_imports)]
+        use cw4_group::contract::*;
+        d.tx(|deps, env| reply(deps, env, msg))
     }
 }
 
